@@ -565,8 +565,59 @@ fn port_p2p_nonslave(rep: &mut Report, seed: u64) {
             }
         }
         before_leave = Some(clock.lock().unwrap().log.len());
-        if node.call(0, Call::AnnounceReceiptTimer).is_err() || node.port_state(0) == PortState::Slave {
-            return;
+        if rng.gen_bool(0.5) {
+            if node.call(0, Call::AnnounceReceiptTimer).is_err() || node.port_state(0) == PortState::Slave {
+                return;
+            }
+        } else {
+            // the port stops being slave because two responders answer one of its requests
+            t += SEC / 8;
+            clock.lock().unwrap().set_true(t);
+            let Ok(acts) = node.call(0, Call::DelayRequestTimer) else { return };
+            let mut req = None;
+            for a in acts {
+                if let Act::SendEvent { ctx: Some(ctx), data, .. } = a {
+                    if let Ok(m) = Msg::decode(&data) {
+                        if m.hdr.msg_type == T_PDELAY_REQ {
+                            req = Some((m.hdr.seq, ctx));
+                        }
+                    }
+                }
+            }
+            let Some((seq, ctx)) = req else { return };
+            if node.call(0, Call::TxTimestamp(ctx, time_from_units(t))).is_err() {
+                return;
+            }
+            for who in [21u8, 22] {
+                if who == 22 {
+                    // the first response still belongs to the slave phase (and may steer); the
+                    // second one is the call that takes the port out of the slave state
+                    before_leave = Some(clock.lock().unwrap().log.len());
+                }
+                let r = Src::new(clock_id(who).0, 1).pdelay_resp(seq, false, Ts { secs: (t >> 32) as u64 / 1_000_000_000, nanos: 5 }, own, 0);
+                if node.call(0, Call::EventRx(r.encode(), time_from_units(t + (1000 << 32)))).is_err() {
+                    return;
+                }
+            }
+            if node.port_state(0) != PortState::Faulty {
+                return;
+            }
+            rep.ev("slave_port_made_faulty");
+            // timers of the slave phase still fire while the port is disabled, then it recovers
+            for _ in 0..3 {
+                let _ = node.call(0, Call::FilterUpdateTimer);
+            }
+            for _ in 0..3 {
+                if !exchange(&mut node, &mut t, &mut rng) {
+                    return;
+                }
+                if node.port_state(0) != PortState::Faulty {
+                    break;
+                }
+            }
+            if node.port_state(0) == PortState::Faulty || node.port_state(0) == PortState::Slave {
+                return;
+            }
         }
         allowed = 1;
     }
